@@ -94,7 +94,7 @@ EVENT_CODES_2 = {"b": 2, "a": 0, "c": 1}  # competing events: b (always first) h
 
 
 def _model_dict(spec):
-    d = copy.deepcopy(model_dict({k: v for k, v in spec.items() if k != "ne"}))
+    d = copy.deepcopy(model_dict({k: v for k, v in spec.items() if k not in ("ne", "unobserved")}))
     ne = int(spec.get("ne", 1))
     if spec["kind"] == "joint" and ne != 1:
         # competing events (hyperparameter nb_events): one Weibull shape / scale (and one row of zeta) per event
@@ -140,6 +140,15 @@ def base_state(spec, ids):
             # the reader wants to see every event code of the declared number of events: with fewer than 3 members the
             # number of events is given explicitly (as scipy_minimize does for its single-individual datasets)
             ds = Dataset(Data.from_dataframe(df, "joint", factory_kws={"nb_events": ne}))
+        elif spec.get("unobserved"):
+            # the second member keeps its visits but has no observed value at all (the library itself builds such datasets,
+            # drop_full_nan=False): its trajectory is still a trajectory, and its xi counts in the mean like everybody's
+            from lmc.models import cohort_frame as _cf
+            df = _cf(list(ids), spec.get("dim", 2), joint=spec["kind"] == "joint")
+            feats = [c for c in df.columns if c.startswith("Y")]
+            df.loc[df["ID"] == list(ids)[min(1, len(ids) - 1)], feats] = float("nan")
+            ds = Dataset(Data.from_dataframe(df, "joint", drop_full_nan=False) if spec["kind"] == "joint"
+                         else Data.from_dataframe(df, drop_full_nan=False))
         else:
             ds = cohort_dataset(list(ids), spec)
         _BASES[k] = fresh_state(m, ds, latent=None)
@@ -238,6 +247,8 @@ def gauge_specs(tier):
                         continue
                     for v in variants:
                         out.append({"kind": kind, "dim": dim, "ns": ns, "noise": noise, "variant": v})
+                        if v == 0 and dim == 2 and kind in ("logistic", "linear", "joint") and noise == "gaussian-diagonal":
+                            out.append({"kind": kind, "dim": dim, "ns": ns, "noise": noise, "variant": v, "unobserved": True})
                         if kind == "joint" and v == 0 and dim <= 2:
                             # competing events: the compensation must reach the scale of EVERY event
                             out.append({"kind": kind, "dim": dim, "ns": ns, "noise": noise, "variant": v, "ne": 2})
@@ -279,7 +290,8 @@ OBS_JOINT = ("nll_attach_y_ind", "nll_attach_event_ind", "nll_attach_y", "nll_at
 
 def _feature(case, src_mean_nonzero=False):
     spec = case["spec"]
-    f = spec["kind"] + (", sources" if spec["ns"] else ", no sources") + (", competing events" if int(spec.get("ne", 1)) > 1 else "")
+    f = spec["kind"] + (", sources" if spec["ns"] else ", no sources") + (", competing events" if int(spec.get("ne", 1)) > 1 else "") \
+        + (", a member without any observed value" if spec.get("unobserved") else "")
     if spec["kind"] == "mixture_logistic" and src_mean_nonzero:
         f += " with non-zero overall mean"
     return f
@@ -552,9 +564,13 @@ def ortho_cases(spec, tier):
     full = tier == "thorough" and dim <= 3
     betas = list(beta_list(dim, ns, full))
     srcs = [list(s) for s in itertools.product(A_SRC, repeat=ns)]
+    n = 0
     for pt in ortho_points(spec, tier):
         for b in betas:
             yield {"part": "ortho", "spec": spec, "pop": dict(pt, betas=b), "sources": srcs}
+            n += 1
+            if n % (29 if tier == "quick" else 7) == 1 and spec["kind"] != "mixture_logistic":
+                yield {"part": "ortho", "spec": spec, "pop": dict(pt, betas=b), "sources": srcs, "route": "file"}
 
 
 def reference_metric_direction(kind, pop):
@@ -587,8 +603,23 @@ def run_ortho(case):
     V = out["violations"]
     feat = kind
     try:
-        for name, val in case["pop"].items():
-            st[name] = T32(val)
+        if case.get("route") == "file":
+            # the population values come from a model file which also carries a mixing matrix computed for OTHER values
+            # (a file edited by hand; the documentation says the stored matrix is overwritten at loading): the loaded
+            # model must work with the matrix of ITS values
+            d = _model_dict(spec)
+            for name, val in case["pop"].items():
+                d["parameters"][f"{name}_mean"] = val
+            d["parameters"]["mixing_matrix"] = [[round(0.3 + 0.1 * i - 0.2 * j, 3) for j in range(spec["dim"])] for i in range(spec["ns"])]
+            import warnings as _w
+
+            with _w.catch_warnings():
+                _w.simplefilter("ignore")
+                st = BaseModel.load(d).state.clone(disable_auto_fork=True)
+            feat = kind + ", loaded from a file holding another mixing matrix"
+        else:
+            for name, val in case["pop"].items():
+                st[name] = T32(val)
         st["sources"] = T32(case["sources"]).reshape(len(case["sources"]), spec["ns"])
         Q = N(st["orthonormal_basis"])
         M = N(st["mixing_matrix"])
